@@ -149,7 +149,7 @@ def gen_C09(g, tier):
         if cnt >= (60 if tier == 'quick' else 2000): break
     # double: polar decomposition over structure classes and condition numbers
     for _ in range(n):
-        kind = g.choice(['random', 'hermitian', 'unitary', 'diagonal', 'triangular', 'negdet', 'imagdet', 'illcond', 'nearunitary'])
+        kind = g.choice(['random', 'hermitian', 'unitary', 'diagonal', 'triangular', 'negdet', 'imagdet', 'illcond', 'nearunitary', 'nearnegdet', 'nearnegdet'])
         a = [g.r.uniform(-2, 2) for _ in range(8)]
         if kind == 'hermitian': a = [abs(a[0]) + 3, 0, a[2], a[3], a[2], -a[3], abs(a[6]) + 3, 0]
         elif kind == 'unitary':
@@ -159,6 +159,16 @@ def gen_C09(g, tier):
             th, ph, b, c = g.r.uniform(0, 6.28), g.r.uniform(0, 6.28), 10 ** g.r.uniform(-14, -6), complex(g.r.uniform(-2, 2), g.r.uniform(0.5, 2))
             u = [[complex(math.cos(th) * math.cos(ph), math.cos(th) * math.sin(ph)), complex(math.sin(th), 0)], [complex(-math.sin(th), 0), complex(math.cos(th) * math.cos(ph), -math.cos(th) * math.sin(ph))]]
             m = [[c * (1 + b) * u[0][0], c * (1 + b) * u[0][1]], [c * (1 - b) * u[1][0], c * (1 - b) * u[1][1]]]
+            a = [m[0][0].real, m[0][0].imag, m[0][1].real, m[0][1].imag, m[1][0].real, m[1][0].imag, m[1][1].real, m[1][1].imag]
+        elif kind == 'nearnegdet':   # determinant within 1e-13..1e-7 (in argument) of the negative real axis, on either side
+            import cmath
+            m = [[complex(a[0], a[1]), complex(a[2], a[3])], [complex(a[4], a[5]), complex(a[6], a[7])]]
+            if g.random() < 0.5: m = [[complex(g.r.uniform(0.5, 2), 0), 0j], [0j, complex(g.r.uniform(0.5, 2), 0)]]
+            det = m[0][0] * m[1][1] - m[0][1] * m[1][0]
+            if abs(det) > 0.05:
+                delta = g.choice([-1, 1]) * 10 ** g.r.uniform(-13, -7)
+                ph = cmath.exp(0.5j * (math.pi + delta - cmath.phase(det)))
+                m = [[z * ph for z in row] for row in m]
             a = [m[0][0].real, m[0][0].imag, m[0][1].real, m[0][1].imag, m[1][0].real, m[1][0].imag, m[1][1].real, m[1][1].imag]
         elif kind == 'diagonal': a = [a[0], a[1], 0, 0, 0, 0, a[6], a[7]]
         elif kind == 'triangular': a = [a[0], a[1], a[2], a[3], 0, 0, a[6], a[7]]
@@ -271,6 +281,17 @@ def gen_C10(g, tier):
         if g.random() < 0.2: q2 = p
         cs.append(Case('jac.real2 %s' % hexes([p, q2, pq]), 'cmp', 'jacobi-rotation-real'))
         cs.append(Case('jac.complex2 %s' % hexes([p, q2, pq, g.r.uniform(-1, 1) * abs(pq)]), 'cmp', 'jacobi-rotation-complex'))
+    # a direct eigen() call, then the complex solver on a matrix whose leading block carries the same polarisation vector
+    for _ in range(10 if tier == 'quick' else 300):
+        s0 = g.choice([2.0, -1.5, 0.5, g.r.uniform(-3, 3)]); v = [g.r.uniform(-2, 2) for _ in range(3)]
+        if g.random() < 0.7: v[0] = -abs(v[0])
+        size = g.choice([2, 2, 3, 4])
+        cvals = []
+        for i in range(size):
+            cvals.append(v[0] if i == 0 else (-v[0] if i == 1 else g.r.uniform(-1, 1)))
+            for j in range(i + 1, size):
+                cvals += ([v[1], -v[2]] if (i, j) == (0, 1) else [g.r.uniform(-1, 1), g.r.uniform(-1, 1)])
+        cs.append(Case('o.c10.eigenhist %s %d %s' % (hexes([s0] + v), size, hexes(cvals)), 'orc', 'eigen-then-complex-solver', check=flags_then_small(1, 1e-8)))
     for cls in CLASSES:
         for size in range(2, 9):
             for _ in range((3 if cls.startswith('block') else 1) if tier == 'quick' else 12):
